@@ -443,6 +443,58 @@ def proofterm_instances(pt, names, ctx):
         return None
 
 
+def proofterm_spine(pt, names):
+    """The spine of tseitin.encode's ProofTerm, first line first: [(rule, sorted hypothesis wire forms, conclusion wire form)].
+    rule: assume | rewr-hyp-sym (equal_elim whose equation cites an assumed equation) | conjI (apply_theorem) |
+    encode_* / eq_true / eq_false (equal_elim whose equation cites that library theorem) | conj_norm (equal_elim built from
+    imp_conj).  None when the term no longer has that shape."""
+    out = []
+    for _ in range(10000):
+        seq = (sorted(set(sexp.dumps(form_sexp(h, names)) for h in pt.hyps)), sexp.dumps(form_sexp(pt.prop, names)))
+        if pt.rule == "equal_elim" and len(pt.prevs) == 2:
+            eq, src = pt.prevs
+            cited, stack, seen = set(), [eq], set()
+            while stack:
+                q = stack.pop()
+                if id(q) in seen:
+                    continue
+                seen.add(id(q))
+                if q.rule == "theorem":
+                    cited.add(str(q.args))
+                elif q.rule == "assume":
+                    cited.add("rewr-hyp-sym")
+                elif q.rule == "imp_conj":
+                    cited.add("conj_norm")
+                stack.extend(q.prevs)
+            out.append(("+".join(sorted(cited)),) + seq)
+            pt = src
+        elif pt.rule == "apply_theorem" and len(pt.prevs) == 2:
+            out.append((str(pt.args),) + seq)
+            pt = pt.prevs[1]
+        elif pt.rule == "assume":
+            out.append(("assume",) + seq)
+            return list(reversed(out))
+        else:
+            return None
+    return None
+
+
+def model_spine(line):
+    """The model's script lines in the same shape; lines that change nothing are dropped (ProofTerm.equal_elim returns the
+    theorem itself for a reflexive equation)."""
+    out = []
+    for item in sexp.loads(line):
+        rule = item[0]
+        if item[1] == "none":
+            out.append((rule, None, None))
+            continue
+        seq = (sorted(set(sexp.dumps(h) for h in item[1])), sexp.dumps(item[2]))
+        if out and rule not in ("assume", "conjI") and out[-1][1:] == seq:
+            continue
+        out.append((rule,) + seq)
+    return out
+
+
 def expected_instances(hyps):
     """From the model's equations: x <--> y & z is encode_conj[l=x, r1=y, r2=z] and so on; x <--> true is eq_true[A=x]."""
     out = []
@@ -537,9 +589,14 @@ def tseitin_stage(ctx, only=None):
             fx = form_sexp(f, names, extra)
             lines.append(sexp.dumps(["tseitin", fx, sorted(set(extra)), [form_sexp(g, names) for g in order]]))
             lines.append(sexp.dumps(["tseitin-hyps", fx, sorted(set(extra)), [form_sexp(g, names) for g in order]]))
+            lines.append(sexp.dumps(["tseitin-script", fx, sorted(set(extra)), [form_sexp(g, names) for g in order], form_sexp(pt.prop, names)]))
+            try:
+                spine = proofterm_spine(pt, names)
+            except Exception:  # noqa
+                spine = None
             impl_cnfs.append((str(f), [[(names.decode_aux(nm), bv) for nm, bv in cl] for cl in cnf],
                               sorted(sexp.dumps(form_sexp(h, names)) for h in pt.hyps),
-                              proofterm_instances(pt, names, ctx)))
+                              proofterm_instances(pt, names, ctx), spine))
         except Exception as e:  # noqa
             ctx.broken("correspondence:c15:tseitin", "cannot read the subterm numbering of %s: %r" % (f, e))
         f_atoms = sorted(atoms_of(f, set()))
@@ -573,7 +630,23 @@ def tseitin_stage(ctx, only=None):
         ctx.broken("correspondence:c15:driver", "model driver unavailable (tseitin)")
         return
     ndis = 0
-    for (fs, icnf, ihyps, iinst), line, hline in zip(impl_cnfs, out[0::2], out[1::2]):
+    for (fs, icnf, ihyps, iinst, ispine), line, hline, sline in zip(impl_cnfs, out[0::3], out[1::3], out[2::3]):
+        # the proof term line by line: rule / cited theorem, hypotheses and conclusion of every node on the spine of the real
+        # ProofTerm against the model's script (which the model's checker Prf.check must accept up to the last line)
+        if ispine is None:
+            ctx.count("tseitin:proofterm-spine-unreadable")
+        else:
+            try:
+                mspine = model_spine(sline)
+            except Exception:  # noqa
+                mspine = sline
+            ctx.count("tseitin:proofterm-script-compared")
+            if mspine != ispine:
+                ndis += 1
+                if ndis <= 3:
+                    k = next((i for i, (x, y) in enumerate(zip(mspine, ispine)) if x != y), min(len(mspine), len(ispine))) if isinstance(mspine, list) else 0
+                    ctx.broken("correspondence:c15:tseitin-script", "formula=%s first difference at line %d: impl=%s model=%s" % (
+                        fs, k, ispine[k] if k < len(ispine) else None, mspine[k] if isinstance(mspine, list) and k < len(mspine) else mspine))
         # the proof term, rule by rule where it matters: which encode_* / eq_true / eq_false theorem is instantiated
         # with which variables must be what the model's equations say (one instance per equation x <--> op(y, z))
         if iinst is not None:
@@ -1318,7 +1391,7 @@ def run(ctx):
             ctx.log("Gen.lean regenerated (changed)")
     except Exception as e:  # noqa
         ctx.broken("translate:c15:encode_rules", "untranslatable: %r" % e)
-    proofs_ok = ctx.lean_props(["Holpy.C15.Props", "Holpy.C15.Props2"], exes=[EXE])
+    proofs_ok = ctx.lean_props(["Holpy.C15.Props", "Holpy.C15.Props2", "Holpy.C15.Props3"], exes=[EXE])
     if ctx.tier == "thorough" and proofs_ok:
         ctx.lean_check_modules(["Holpy.C15.Props", "Holpy.C15.Props2"])
     ctx.coverage["trusted_base"] += [
@@ -1416,13 +1489,19 @@ MANIFEST = {
             "real code by differential streams: solve_cnf runs, tseitin.encode's CNF and hypotheses, single logic.resolution steps, traces of "
             "solve_cnf replayed with the real macro, proofrec.solve_cnf end to end, the real zChaff.solve on generated traces and on damaged ones (binary stubbed) against the model's zCheck, the instantiated "
             "encode_* / eq_true / eq_false theorems in the exported proof term of tseitin.encode against the model's equations, "
-            "noLearnRun against the solver's debug output.",
+            "noLearnRun against the solver's debug output. The PROOF TERM of tseitin.encode is modelled as a script (Script.lean: Prf = "
+            "assume / top_conv(rewr_conv(assumed equation, sym)) / apply_theorem conjI / top_conv(rewr_conv(encode_*, eq_true, eq_false)) / "
+            "conj_norm) over a small proof system with a checker Prf.check: proof_system_sound (every sequent the checker accepts is valid), "
+            "encode_rewrite_pass_equiv (each rewriting pass is an equivalence for arbitrary matched terms), encode_proofterm_valid_partial "
+            "(IF encode's script checks THEN its sequent is valid); the script is compared LINE BY LINE with the spine of the real ProofTerm "
+            "(rule / cited theorem, hypotheses, conclusion of every node; no-op conversions dropped as ProofTerm.equal_elim does) on every "
+            "generated formula, and Prf.check is evaluated on it with the real final conjunction as conj_norm's target.",
     "note": "Termination is a theorem about the model (fuel stands in for `while True`); the tie of the model to prover/sat.py is the "
-            "differential streams, and non-termination of the real code is still also searched for with time limits. NOT proved: that tseitin.encode's proof term is accepted by the checker (judged by the real checker on generated formulas; the construction "
-            "from kernel rules is not modelled: only its statement is); that the model's own default subterm order passes orderOK (evaluated; "
+            "differential streams, and non-termination of the real code is still also searched for with time limits. NOT proved: that encode's script is accepted by Prf.check for EVERY formula (encode_proofterm_valid_partial has it as its one hypothesis; it is evaluated "
+            "per generated formula) and that its last line is the modelled CNF with exactly the modelled hypotheses for every formula (evaluated, compared with the real run); the steps inside the "
+            "conversions (combination/transitive/substitution, the expansion of imp_conj and apply_theorem into kernel rules) are not modelled: the real checker judges them; that the model's own default subterm order passes orderOK (evaluated; "
             "the real order always did). The proof term of tseitin.encode goes through the macros imp_conj / apply_theorem and about 100 primitive "
-            "steps per formula; it is NOT modelled on the kernel model (no encode_proofterm_checks): only its statement, its hypotheses and "
-            "the theorem instances it uses are compared with the model, and the real checker judges it. The discharge steps of zChaff.solve / "
+            "steps per formula; it is modelled at the granularity of its spine only (one line per on_prop / apply_theorem call of encode), not on the kernel model. The discharge steps of zChaff.solve / "
             "proofrec.solve_cnf (conjD, implies_intr/elim, negI) are exercised on the real code only (theorem returned must be |- F and check). "
             "Number lexing of trace tokens is done by the driver, not the model. Trusted: Lean kernel, "
             "propext/Classical.choice/Quot.sound, the harness generators and the recording of Python set orders, the sat.json translator. "
